@@ -1299,6 +1299,9 @@ func (c *c49ctx) headerFamily() {
 				cmds := ru.cmds()
 				st := "-"
 				for _, a := range ru.acts {
+					if strings.HasPrefix(a.Cmd, "REQ_") != (side == "request") {
+						continue
+					}
 					if strings.HasPrefix(det, "header "+c49canon(a.Params[0])+":") {
 						if kind == "target-header-wrong" {
 							cmds = a.Cmd
